@@ -729,11 +729,11 @@ theorem live_micro (st : St) (i : Nat) (hinv : Inv2 st) (h : Live st (some i)) :
       | true =>
         rw [hok] at hgA
         have hgA' : getReq (acquire st .T i).1 i = some (setHold r .T true) := by simpa using hgA
-        have hqT : ∀ (p : Phase) (d : Nat), (p = .waitAck ∨ p = .acked) → ∀ (s' : St), (∀ l, queue s' l = queue (acquire st .T i).1 l) →
-            ∀ l, i ∈ queue s' l → (waiting l ({ setHold r .T true with phase := p, deadline := d } : Req) ∨
-              (holds ({ setHold r .T true with phase := p, deadline := d } : Req) l = true ∧
-                heldPhase l ({ setHold r .T true with phase := p, deadline := d } : Req))) := by
-          intro p d hpp s' hqs l hm
+        have hqT : ∀ (p : Phase) (d g : Nat), (p = .waitAck ∨ p = .acked) → ∀ (s' : St), (∀ l, queue s' l = queue (acquire st .T i).1 l) →
+            ∀ l, i ∈ queue s' l → (waiting l ({ setHold r .T true with phase := p, deadline := d, gen := g } : Req) ∨
+              (holds ({ setHold r .T true with phase := p, deadline := d, gen := g } : Req) l = true ∧
+                heldPhase l ({ setHold r .T true with phase := p, deadline := d, gen := g } : Req))) := by
+          intro p d g hpp s' hqs l hm
           rw [hqs] at hm
           have hd := qi_self hL hnA hgA' l hm
           cases l with
@@ -745,15 +745,15 @@ theorem live_micro (st : St) (i : Nat) (hinv : Inv2 st) (h : Live st (some i)) :
         cases htr : (acquire st .T i).1.transport with
         | true =>
           have hE := live_emit (Out.write i r.frag (acquire st .T i).1.pack r.nfrags) hL
-          have hU : Live (updReq (emit (acquire st .T i).1 (Out.write i r.frag (acquire st .T i).1.pack r.nfrags)) i (fun x => { x with phase := Phase.waitAck, deadline := (emit (acquire st .T i).1 (Out.write i r.frag (acquire st .T i).1.pack r.nfrags)).now + Gen.ackTimeoutMs })) (some i) :=
-            live_upd (emit (acquire st .T i).1 (Out.write i r.frag (acquire st .T i).1.pack r.nfrags)) i (fun x => { x with phase := Phase.waitAck, deadline := (emit (acquire st .T i).1 (Out.write i r.frag (acquire st .T i).1.pack r.nfrags)).now + Gen.ackTimeoutMs })
+          have hU : Live (updReq (emit (acquire st .T i).1 (Out.write i r.frag (acquire st .T i).1.pack r.nfrags)) i (fun x => { x with phase := Phase.waitAck, deadline := (emit (acquire st .T i).1 (Out.write i r.frag (acquire st .T i).1.pack r.nfrags)).now + Gen.ackTimeoutMs, gen := (emit (acquire st .T i).1 (Out.write i r.frag (acquire st .T i).1.pack r.nfrags)).gen })) (some i) :=
+            live_upd (emit (acquire st .T i).1 (Out.write i r.frag (acquire st .T i).1.pack r.nfrags)) i (fun x => { x with phase := Phase.waitAck, deadline := (emit (acquire st .T i).1 (Out.write i r.frag (acquire st .T i).1.pack r.nfrags)).now + Gen.ackTimeoutMs, gen := (emit (acquire st .T i).1 (Out.write i r.frag (acquire st .T i).1.pack r.nfrags)).gen })
               (setHold r .T true) hE hnA hgA' (fun _ => rfl) (by simp [setHold])
-              (hqT .waitAck _ (Or.inl rfl) _ (fun l => by cases l <;> rfl))
-          have hnU : ((updReq (emit (acquire st .T i).1 (Out.write i r.frag (acquire st .T i).1.pack r.nfrags)) i (fun x => { x with phase := Phase.waitAck, deadline := (emit (acquire st .T i).1 (Out.write i r.frag (acquire st .T i).1.pack r.nfrags)).now + Gen.ackTimeoutMs })).reqs.map (·.id)).Nodup := by
-            rw [ids_updReq _ i (fun x => { x with phase := Phase.waitAck, deadline := (emit (acquire st .T i).1 (Out.write i r.frag (acquire st .T i).1.pack r.nfrags)).now + Gen.ackTimeoutMs }) (fun _ => rfl)]; exact hnA
-          have hgU : getReq (updReq (emit (acquire st .T i).1 (Out.write i r.frag (acquire st .T i).1.pack r.nfrags)) i (fun x => { x with phase := Phase.waitAck, deadline := (emit (acquire st .T i).1 (Out.write i r.frag (acquire st .T i).1.pack r.nfrags)).now + Gen.ackTimeoutMs })) i =
-              some ((fun x => { x with phase := Phase.waitAck, deadline := (emit (acquire st .T i).1 (Out.write i r.frag (acquire st .T i).1.pack r.nfrags)).now + Gen.ackTimeoutMs }) (setHold r .T true)) := by
-            rw [getReq_updReq _ i (fun x => { x with phase := Phase.waitAck, deadline := (emit (acquire st .T i).1 (Out.write i r.frag (acquire st .T i).1.pack r.nfrags)).now + Gen.ackTimeoutMs }) (fun _ => rfl)]
+              (hqT .waitAck _ _ (Or.inl rfl) _ (fun l => by cases l <;> rfl))
+          have hnU : ((updReq (emit (acquire st .T i).1 (Out.write i r.frag (acquire st .T i).1.pack r.nfrags)) i (fun x => { x with phase := Phase.waitAck, deadline := (emit (acquire st .T i).1 (Out.write i r.frag (acquire st .T i).1.pack r.nfrags)).now + Gen.ackTimeoutMs, gen := (emit (acquire st .T i).1 (Out.write i r.frag (acquire st .T i).1.pack r.nfrags)).gen })).reqs.map (·.id)).Nodup := by
+            rw [ids_updReq _ i (fun x => { x with phase := Phase.waitAck, deadline := (emit (acquire st .T i).1 (Out.write i r.frag (acquire st .T i).1.pack r.nfrags)).now + Gen.ackTimeoutMs, gen := (emit (acquire st .T i).1 (Out.write i r.frag (acquire st .T i).1.pack r.nfrags)).gen }) (fun _ => rfl)]; exact hnA
+          have hgU : getReq (updReq (emit (acquire st .T i).1 (Out.write i r.frag (acquire st .T i).1.pack r.nfrags)) i (fun x => { x with phase := Phase.waitAck, deadline := (emit (acquire st .T i).1 (Out.write i r.frag (acquire st .T i).1.pack r.nfrags)).now + Gen.ackTimeoutMs, gen := (emit (acquire st .T i).1 (Out.write i r.frag (acquire st .T i).1.pack r.nfrags)).gen })) i =
+              some ((fun x => { x with phase := Phase.waitAck, deadline := (emit (acquire st .T i).1 (Out.write i r.frag (acquire st .T i).1.pack r.nfrags)).now + Gen.ackTimeoutMs, gen := (emit (acquire st .T i).1 (Out.write i r.frag (acquire st .T i).1.pack r.nfrags)).gen }) (setHold r .T true)) := by
+            rw [getReq_updReq _ i (fun x => { x with phase := Phase.waitAck, deadline := (emit (acquire st .T i).1 (Out.write i r.frag (acquire st .T i).1.pack r.nfrags)).now + Gen.ackTimeoutMs, gen := (emit (acquire st .T i).1 (Out.write i r.frag (acquire st .T i).1.pack r.nfrags)).gen }) (fun _ => rfl)]
             show (getReq (acquire st .T i).1 i).map _ = _
             rw [hgA']; rfl
           have hS := live_stop _ i _ hnU hgU hU (Or.inr (Or.inr (Or.inl rfl)))
@@ -765,7 +765,7 @@ theorem live_micro (st : St) (i : Nat) (hinv : Inv2 st) (h : Live st (some i)) :
         | false =>
           have hU := live_upd (acquire st .T i).1 i (fun r => { r with phase := .acked }) (setHold r .T true) hL hnA hgA'
             (fun _ => rfl) (by simp [setHold])
-            (hqT .acked (setHold r .T true).deadline (Or.inr rfl) _ (fun l => rfl))
+            (hqT .acked (setHold r .T true).deadline (setHold r .T true).gen (Or.inr rfl) _ (fun l => rfl))
           generalize acquire st .T i = a at *
           obtain ⟨st', ok⟩ := a
           simp only [] at hok htr hU ⊢
@@ -1144,11 +1144,14 @@ theorem live_pre (st : St) (e : Ev) (hinv : Inv2 st) (hcov : CoveredV (view st))
   | rxAck k =>
     simp only [pre]
     split
-    · have hf := toAcked_facts (fun r => r.phase == Phase.waitAck) (fun r hc => by simpa using hc)
-      exact live_map st _ (fun r => if (r.phase == Phase.waitAck) = true then { r with phase := Phase.acked } else r) h rfl
+    · have hf := toAcked_facts (fun r => r.phase == Phase.waitAck && r.gen == st.gen) (fun r hc => by simp at hc; exact hc.1)
+      exact live_map st _ (fun r => if (r.phase == Phase.waitAck && r.gen == st.gen) = true then { r with phase := Phase.acked } else r) h rfl
         (fun l => by cases l <;> rfl) (fun j hj => List.mem_append_left _ hj)
         (fun r => (hf r).1) (fun r => (hf r).2.1) (fun r => (hf r).2.2.1) (fun r => (hf r).2.2.2.1)
-        (fun r hrm hp _ => List.mem_append_right _ (List.mem_map.mpr ⟨r, List.mem_filter.mpr ⟨hrm, by simp [hp]⟩, rfl⟩))
+        (fun r hrm hp hg => List.mem_append_right _ (List.mem_map.mpr ⟨r, List.mem_filter.mpr ⟨hrm, by
+          by_cases hc : (r.phase == Phase.waitAck && r.gen == st.gen) = true
+          · exact hc
+          · rw [if_neg hc, hp] at hg; cases hg⟩, rfl⟩))
         (fun r _ _ hg hne => absurd (by rw [(hf r).2.2.2.2]; exact hg) hne)
     · exact h0
   | rxRsp key =>
@@ -1264,6 +1267,11 @@ theorem live_pre (st : St) (e : Ev) (hinv : Inv2 st) (hcov : CoveredV (view st))
     · exact live_congr (st := st) rfl (fun l => by cases l <;> rfl) (fun _ hj => hj) h
     · exact live_congr (st := st) rfl (fun l => by cases l <;> rfl) (fun _ hj => hj) h
   | setReset b => exact live_congr (st := st) rfl (fun l => by cases l <;> rfl) (fun _ hj => hj) h
+  | connect =>
+    simp only [pre]
+    split
+    · exact h0
+    · exact live_congr (st := st) rfl (fun l => by cases l <;> rfl) (fun _ hj => hj) h
 
 theorem flag_of_frame {st st' : St} (hf : Frame st st') (h : FlagInv st) : FlagInv st' := by
   intro ht; rw [hf.transport] at ht; rw [hf.isOpen]; exact h ht
@@ -1312,6 +1320,11 @@ theorem flag_pre (st : St) (e : Ev) (h : FlagInv st) : FlagInv (pre st e).1 := b
       · exact h
   | lost => simp only [pre]; split <;> (intro _; rfl)
   | setReset b => exact h
+  | connect =>
+    simp only [pre]
+    split
+    · exact h0
+    · intro ht; cases ht
 
 theorem cov_settle (fuel : Nat) (st : St) (hinv : Inv2 st) (h : CoveredV (view st)) : CoveredV (view (settle fuel st)) := by
   have := settle_ind (fun s => Inv2 s ∧ CoveredV (view s))
